@@ -155,6 +155,14 @@ class C16(Property):
                 pick = rng.sample(classes, 3) + ([c for c in cum if c[0] == "cum-exact-duplicate"] or (rng.sample(cum, 1) if cum and rng.random() < 0.4 else []))
             for name, L in pick:
                 cases.append(Case(g.curve_line(cmd, m, L, pts), tags=(tag, "L-" + name, f"mode{m}")))
+        # a last segment that is far too short to change the f64 running total of a long path, but is a segment: the end points differ, so a
+        # longer requested length extends it (seed C16-s: "the last two points are equal" read off the cumulative lengths)
+        for A in (100000.0, 65536.0, 30000.0, 4096.0):
+            for eps in (1e-12, 3e-13, 1e-11, 1e-14):
+                for (ex, ey) in ((eps, 0.0), (0.0, eps), (-eps, eps)):
+                    pts = [(0.0, 0.0, "L"), (A, 0.0, None), (0.0, 0.0, None), (g.f32(ex), g.f32(ey), None)]
+                    for L in (2 * A + 50.0, 2 * A + 0.5, 2 * A - 10.0, None):
+                        cases.append(Case(g.curve_line(cmd, rng.choice(g.MODES), L, pts), tags=("negligible-last-segment",)))
         for m in g.MODES:   # F13 witness: nearly collinear perfect curve whose f32 denominator is exactly 0
             for L in (None, 50.0):
                 cases.append(Case(g.curve_line(cmd, m, L, [(404.0, -3.0, "P"), (279.0, 148.9139862060547, None), (358.74554443359375, 51.998291015625, None)]), tags=("witness-F13",)))
